@@ -130,6 +130,14 @@ def run(ctx):
                 ref = np.vstack([dp.stack_training_data(s, W) for s in series])
                 if out.shape != ref.shape or not np.array_equal(out, ref):
                     ctx.violation("monitor", "a stacked window mixes rows of two series", {"W": W, "lengths": [len(s) for s in series]})
+                # the next call holds the same rows split differently (same total, same number of series, same W)
+                for other in (series[::-1], series[1:] + series[:1]):
+                    out2 = dp.stack_training_data_multiple_series(other, W)
+                    ref2 = np.vstack([dp.stack_training_data(s, W) for s in other])
+                    if out2.shape != ref2.shape or not np.array_equal(out2, ref2):
+                        ctx.violation("monitor", "a stacked window mixes rows of two series when the same series are stacked again in another order",
+                                      {"W": W, "first_call_lengths": [len(s) for s in series], "second_call_lengths": [len(s) for s in other]})
+                        break
             ctx.count("stack")
         # the labelling step given beta * mask: labels and reported cost must be those of labelling every series on its own
         # (what C07_masked_is_separable says about the model), on small integer tables (exact)
